@@ -136,7 +136,47 @@ func Same(a, b Result, byValue bool) bool {
 	}
 	x, e1 := ref.Parse(a.Out)
 	y, e2 := ref.Parse(b.Out)
-	return e1 == nil && e2 == nil && ref.Equal(x, y)
+	return e1 == nil && e2 == nil && sameValue(x, y)
+}
+
+// sameValue is structural equality that also copes with repeated member names
+// (histories may hold such documents): objects are compared as multisets of
+// (name, value) members.
+func sameValue(a, b *ref.V) bool {
+	if a.K != b.K {
+		return false
+	}
+	switch a.K {
+	case ref.KArr:
+		if len(a.Arr) != len(b.Arr) {
+			return false
+		}
+		for i := range a.Arr {
+			if !sameValue(a.Arr[i], b.Arr[i]) {
+				return false
+			}
+		}
+		return true
+	case ref.KObj:
+		if len(a.Keys) != len(b.Keys) {
+			return false
+		}
+		used := make([]bool, len(b.Keys))
+		for i, k := range a.Keys {
+			found := false
+			for j, kb := range b.Keys {
+				if !used[j] && kb == k && sameValue(a.Vals[i], b.Vals[j]) {
+					used[j], found = true, true
+					break
+				}
+			}
+			if !found {
+				return false
+			}
+		}
+		return true
+	}
+	return ref.Equal(a, b)
 }
 
 // ---------- the two packages behind one face ----------
@@ -477,6 +517,26 @@ func DrawPool(t *rapid.T, legacy bool) Pool {
 		}
 		docs = append(docs, d)
 		add(&p.Docs, spell(d, fmt.Sprintf("d%d", i+1)))
+	}
+	if gen.OneIn(t, 3, "dupdoc") {
+		// a document with a repeated member name (at the root or below): still one JSON text, and
+		// the same call on it must still give the same bytes every time
+		d := docs[gen.Uniform(t, 0, len(docs)-1, "dupbase")].Clone()
+		done := false
+		d.Walk(func(x *ref.V) {
+			if !done && x.K == ref.KObj && len(x.Keys) >= 2 && gen.OneIn(t, 2, "dupat") {
+				x.Keys = append(x.Keys, x.Keys[0])
+				x.Vals = append(x.Vals, cfg.Scalar().Draw(t, "dupv"))
+				done = true
+			}
+		})
+		if !done && d.K == ref.KObj && len(d.Keys) >= 1 {
+			d.Keys = append(d.Keys, d.Keys[0])
+			d.Vals = append(d.Vals, cfg.Scalar().Draw(t, "dupv0"))
+			d.Keys = append(d.Keys, "zz")
+			d.Vals = append(d.Vals, ref.Num("1"))
+		}
+		add(&p.Docs, []byte(d.Text(false)))
 	}
 	np := gen.Uniform(t, 1, 3, "npatches")
 	for i := 0; i < np; i++ {
